@@ -160,7 +160,9 @@ def parse_field_values_to_cinfo(field_values: FieldValues) -> version.V2Calendar
     # Use of defaults is an all or nothing affair.
     # We don't to mix anything from TODAY with stuff
     # that was actually parsed from a string.
-    if not any((date, year_y, year_g, month, dom, doy, week_w, week_u, week_v)):
+    # (Week numbers may be zero, so test for None rather than truthiness.)
+    parsed_vals = (date, year_y, year_g, month, dom, doy, week_w, week_u, week_v)
+    if all(val is None for val in parsed_vals):
         date = version.TODAY
 
     # derive all fields from other previous values
